@@ -371,6 +371,10 @@ def _file_may_match(
             elif expr.op == FilterOp.IN:
                 # For IN: at least one value in the list must be in [file_min, file_max]
                 if expr.value:
+                    if any(isinstance(v, float) and v != v for v in expr.value):
+                        # pc.is_in matches NaN rows when the value set contains
+                        # NaN, and NaN rows are invisible to min/max bounds.
+                        continue
                     has_possible_match = any(
                         file_min <= candidate <= file_max
                         for v in expr.value
